@@ -3,7 +3,7 @@
 /verif/seeded/<id>/{patch.diff, demo.py, meta.json}.  Requires /tmp/sv/tests/<id>.txt from tools/seed_suite.sh."""
 import sys, os, json, subprocess, shutil
 sid = sys.argv[1]; prop = sid.split('_')[0]; extra = sys.argv[2:]
-src = '/tmp/seed/out/%s' % prop
+src = '%s/%s' % (os.environ.get('SEED_SRC', '/tmp/seed/out'), prop)
 patch = '%s/%s.diff' % (src, sid); demo = '%s/%s_demo.py' % (src, sid); info = '%s/%s.json' % (src, sid)
 suite = open('/tmp/sv/tests/%s.txt' % sid).read().strip() if os.path.exists('/tmp/sv/tests/%s.txt' % sid) else 'not run'
 out = subprocess.run([sys.executable, '/verif/tools/seedtest.py', patch, demo, prop] + extra, capture_output=True).stdout.decode()
